@@ -1,8 +1,9 @@
 // Stand-alone reproducer for the C34 triage (run: cd /verif/harness && $GO125 run -tags verif ./cmd/c34/repro).
 // Public route only: pdfcpu.PDFBookletConfig + api.BookletFile, no verif hook.
 // multifolio is documented "for n=2 and PDF input only" but accepted for n=4,6,8:
-//   n=4, multifolio:on, foliosize:1, 1 selected page  -> runtime panic (slice bounds out of range [4:1])
-//   n=4, perfectbound, multifolio:on, foliosize:1, pages 1-4 -> success, but pages 2 and 4 are not in the output
+//
+//	n=4, multifolio:on, foliosize:1, 1 selected page  -> runtime panic (slice bounds out of range [4:1])
+//	n=4, perfectbound, multifolio:on, foliosize:1, pages 1-4 -> success, but pages 2 and 4 are not in the output
 package main
 
 import (
